@@ -16,6 +16,7 @@ import (
 	slashingtypes "github.com/cosmos/cosmos-sdk/x/slashing/types"
 	stakingtypes "github.com/cosmos/cosmos-sdk/x/staking/types"
 
+	"github.com/terra-money/alliance/x/alliance"
 	"github.com/terra-money/alliance/x/alliance/keeper"
 	"github.com/terra-money/alliance/x/alliance/types"
 )
@@ -205,6 +206,14 @@ func (r *Runner) buildMsg(s Step) sdk.Msg {
 		return &stakingtypes.MsgUndelegate{DelegatorAddress: actor(), ValidatorAddress: val(s.V), Amount: sdk.NewCoin(BondDenom, amt())}
 	case "nredelegate":
 		return &stakingtypes.MsgBeginRedelegate{DelegatorAddress: actor(), ValidatorSrcAddress: val(s.V), ValidatorDstAddress: val(s.W), Amount: sdk.NewCoin(BondDenom, amt())}
+	case "set_unbonding":
+		// staking governance changes the unbonding period (pending entries keep their own completion time)
+		sp, err := w.App.StakingKeeper.GetParams(w.Ctx)
+		if err != nil {
+			return nil
+		}
+		sp.UnbondingTime = time.Duration(amt().Int64())
+		return &stakingtypes.MsgUpdateParams{Authority: w.GovAddr.String(), Params: sp}
 	case "unjail":
 		return &slashingtypes.MsgUnjail{ValidatorAddr: val(s.V)}
 	case "gov_create":
@@ -413,10 +422,12 @@ func (r *Runner) ExecTx(s Step) *TxOutcome {
 				}
 			}
 			rt := w.App.GovKeeper.LegacyRouter()
-			if !rt.HasRoute(content.ProposalRoute()) {
-				return fmt.Errorf("no legacy route")
+			if rt.HasRoute(content.ProposalRoute()) {
+				return rt.GetRoute(content.ProposalRoute())(ctx, content)
 			}
-			return rt.GetRoute(content.ProposalRoute())(ctx, content)
+			// this application does not register the module's legacy route in its gov router; chains that
+			// embed the module do, with exactly this handler
+			return alliance.NewAllianceProposalHandler(w.App.AllianceKeeper)(ctx, content)
 		})
 	default:
 		msg := r.buildMsg(s)
